@@ -102,7 +102,7 @@ MUTANTS = [
      "members replaced on each evaluation"),
     ("M43", S + "pytest_plugin.py", "                    for external_name in used:\n                        state().storage.persist(external_name)\n\n                cr.fix_all()", "                cr.fix_all()\n                for test_file in cr.files():\n                    for external_name in used_externals(ast.parse(test_file.new_code())):\n                        state().storage.persist(external_name)", ["C15"],
      "externals persisted after the files are written"),
-    ("M44", S + "_format.py", "            )\n            return text\n        return result.stdout.decode(\"utf-8\")", "            )\n        return result.stdout.decode(\"utf-8\")", ["C15"],
+    ("M44", S + "_format.py", "            )\n            return text\n        formatted = result.stdout.decode(\"utf-8\")", "            )\n        formatted = result.stdout.decode(\"utf-8\")", ["C15"],
      "format-command failure returns its (empty) stdout"),
     ("M45", S + "_rewrite_code.py", "            os.replace(tmp_filename, filename)", "            shutil.copyfile(tmp_filename, filename)", ["C15"],
      "non atomic final copy (still ok unless the copy faults)"),
